@@ -374,9 +374,7 @@ def run_impl(exe, cases, env=None, jobs=None, max_restarts=40):
     return answers, crashes
 
 
-def run_driver(mode, lines):
-    if not lines:
-        return []
+def _run_driver_one(mode, lines):
     data = ("\n".join(lines) + "\n").encode("latin-1")
     p = subprocess.run([DRIVER, mode], input=data, stdout=subprocess.PIPE, stderr=subprocess.PIPE)
     out = p.stdout.decode("latin-1").split("\n")
@@ -386,6 +384,24 @@ def run_driver(mode, lines):
         raise RuntimeError("driver %s failed rc=%d lines=%d/%d: %s" % (
             mode, p.returncode, len(out), len(lines), p.stderr.decode("utf-8", "replace")[-500:]))
     return out
+
+
+def run_driver(mode, lines):
+    """The Lean driver answers line by line and keeps no state between lines: the lines are dealt round-robin to up
+    to 16 driver processes and the answers are put back in order."""
+    if not lines:
+        return []
+    k = min(16, max(1, len(lines) // 8))
+    if k == 1:
+        return _run_driver_one(mode, lines)
+    from concurrent.futures import ThreadPoolExecutor
+    parts = [lines[i::k] for i in range(k)]
+    with ThreadPoolExecutor(max_workers=k) as ex:
+        outs = list(ex.map(lambda part: _run_driver_one(mode, part), parts))
+    res = [None] * len(lines)
+    for i, o in enumerate(outs):
+        res[i::k] = o
+    return res
 
 
 def load_known():
